@@ -66,6 +66,22 @@ class FuncInfo:
         return f"<Func {self.fq}>"
 
 
+class _Methods(dict):
+    def __init__(self, own, program, ci) -> None:
+        super().__init__(own)
+        self._program = program
+        self._ci = ci
+
+    def get(self, name, default=None):  # type: ignore[override]
+        if name in self:
+            return self[name]
+        try:
+            m = self._program.find_method(self._ci, name)
+        except Exception:
+            m = None
+        return m if m is not None else default
+
+
 @dataclass(eq=False)
 class ClassInfo:
     name: str
@@ -161,6 +177,11 @@ class Program:
                 self.modules[name] = mod
         for mod in self.modules.values():
             self._index_module(mod)
+        # `cls.methods.get(name)` also finds a method the class inherits (a method merged into / moved to a base class is still
+        # the class's method); iteration, `in`, len() and [] keep meaning the class's OWN definitions
+        for mod in self.modules.values():
+            for ci in mod.classes.values():
+                ci.methods = _Methods(ci.methods, self, ci)
 
     def _resolve_relative(self, mod: Module, level: int, target: Optional[str]) -> str:
         if level == 0:
